@@ -9,6 +9,7 @@ import (
 	"flag"
 	"fmt"
 	"io"
+	"os"
 	"sync"
 	"time"
 
@@ -263,6 +264,41 @@ func runHistory(bi int, steps []step, le *logrus.Entry, emit func(map[string]any
 	}
 }
 
+// openHook counts, per link, how often a pubsub controller reports that it opened the pubsub stream ("pubsub stream opened (by us)")
+type openHook struct {
+	mu    sync.Mutex
+	opens map[string]int
+}
+
+func (h *openHook) Levels() []logrus.Level { return logrus.AllLevels }
+func (h *openHook) Fire(e *logrus.Entry) error {
+	if e.Message == "pubsub stream opened (by us)" {
+		h.mu.Lock()
+		h.opens[fmt.Sprint(e.Data["link-uuid"])]++
+		h.mu.Unlock()
+	}
+	return nil
+}
+func (h *openHook) max() int {
+	h.mu.Lock()
+	defer h.mu.Unlock()
+	m := 0
+	for _, n := range h.opens {
+		if n > m {
+			m = n
+		}
+	}
+	return m
+}
+func hookedLogger() (*logrus.Entry, *openHook) {
+	lg := logrus.New()
+	lg.SetOutput(io.Discard)
+	lg.SetLevel(logrus.InfoLevel)
+	h := &openHook{opens: map[string]int{}}
+	lg.AddHook(h)
+	return logrus.NewEntry(lg), h
+}
+
 // ---------------------------------------------------------------- pubsub pair (PubSubPair.tla)
 
 type pstep struct {
@@ -277,9 +313,10 @@ type gotMsg struct {
 	Auth bool   `json:"auth"`
 }
 
-func runPubSub(bi int, steps []pstep, le *logrus.Entry, emit func(map[string]any)) {
+func runPubSub(bi int, steps []pstep, _ *logrus.Entry, emit func(map[string]any)) {
 	ctx, cancel := context.WithCancel(context.Background())
 	defer cancel()
+	le, hook := hookedLogger()
 	var ln, hn string
 	for k := 0; ; k++ {
 		ln, hn = "twonode/a"+string(rune('0'+k)), "twonode/b"+string(rune('0'+k))
@@ -382,9 +419,144 @@ func runPubSub(bi int, steps []pstep, le *logrus.Entry, emit func(map[string]any
 		}
 		time.Sleep(150 * time.Millisecond)
 		mu.Lock()
-		o := map[string]any{"e": "q", "gotL": append([]gotMsg{}, got["L"]...), "gotH": append([]gotMsg{}, got["H"]...)}
+		o := map[string]any{"e": "q", "gotL": append([]gotMsg{}, got["L"]...), "gotH": append([]gotMsg{}, got["H"]...), "opens": hook.max()}
 		mu.Unlock()
 		emit(o)
+	}
+}
+
+// ---------------------------------------------------------------- pubsub line a - b - c (PubSubLine.tla)
+
+type lstep struct {
+	A   string   `json:"a"`
+	N   string   `json:"n"`
+	E   []string `json:"e"`
+	Exp []string `json:"exp"`
+}
+
+func runPubSubLine(bi int, steps []lstep, _ *logrus.Entry, emit func(map[string]any)) {
+	ctx, cancel := context.WithCancel(context.Background())
+	defer cancel()
+	le, hook := hookedLogger()
+	names := []string{"a", "b", "c"}
+	nodes := map[string]*side{}
+	// every node knows how to dial the others (in-process addresses are derived from the peer ids)
+	for _, n := range names {
+		nodes[n] = startSide(ctx, le, "twonode/line/"+n, nil)
+	}
+	defer func() {
+		for _, s := range nodes {
+			s.tb.Release()
+		}
+	}()
+	for _, x := range names {
+		for _, y := range names {
+			if x != y {
+				nodes[x].tpt.ConnectToInproc(ctx, nodes[y].tpt)
+			}
+		}
+	}
+	nameOf := map[string]string{}
+	for n, s := range nodes {
+		nameOf[s.tb.PeerID.String()] = n
+		s.tb.StaticResolver.AddFactory(floodsub_controller.NewFactory(s.tb.Bus))
+		if _, _, _, err := bus.ExecOneOff(ctx, s.tb.Bus, resolver.NewLoadControllerWithConfig(&floodsub_controller.Config{}), nil, nil); err != nil {
+			vio.Fatal("pubsub controller: %v", err)
+		}
+	}
+	const channel = "verif-line-chan"
+	subsOf := map[string]pubsub.Subscription{}
+	relOf := map[string]directive.Reference{}
+	var mu sync.Mutex
+	got := map[string][]gotMsg{"a": {}, "b": {}, "c": {}}
+	emit(map[string]any{"e": "reset", "b": bi})
+	npub := 0
+	expected := map[string]map[string]bool{}
+	ok := func() bool {
+		mu.Lock()
+		defer mu.Unlock()
+		for d, ss := range expected {
+			for s := range ss {
+				found := false
+				for _, g := range got[s] {
+					found = found || g.Data == d
+				}
+				if !found {
+					return false
+				}
+			}
+		}
+		return true
+	}
+	for _, st := range steps {
+		data := ""
+		switch st.A {
+		case "link":
+			x, y := nodes[st.E[0]], nodes[st.E[1]]
+			go func() {
+				_, _, _ = link.EstablishLinkWithPeerEx(ctx, y.tb.Bus, "", x.tb.PeerID, false)
+			}()
+			// the dialing side needs the address of the other: DialPeerAddr through its controller
+			go func() {
+				_, _ = y.tpc.DialPeerAddr(ctx, x.tb.PeerID, &dialer.DialerOpts{Address: x.tpt.LocalAddr().String()})
+			}()
+			linked := false
+			for i := 0; i < 4000 && !linked; i++ {
+				linked = len(x.tpc.GetPeerLinks(y.tb.PeerID)) > 0 && len(y.tpc.GetPeerLinks(x.tb.PeerID)) > 0
+				if !linked {
+					time.Sleep(5 * time.Millisecond)
+				}
+			}
+			if !linked {
+				vio.Fatal("link %v did not come up within 20 s", st.E)
+			}
+		case "sub":
+			s := nodes[st.N]
+			sctx, scancel := context.WithTimeout(ctx, 20*time.Second)
+			sub, _, ref, err := pubsub.ExBuildChannelSubscription(sctx, s.tb.Bus, false, channel, s.tb.PrivKey, nil)
+			scancel()
+			if err != nil {
+				vio.Fatal("subscribe on %s: %v", st.N, err)
+			}
+			name := st.N
+			sub.AddHandler(func(m pubsub.Message) {
+				mu.Lock()
+				got[name] = append(got[name], gotMsg{Data: string(m.GetData()), From: nameOf[m.GetFrom().String()], Auth: m.GetAuthenticated()})
+				mu.Unlock()
+			})
+			subsOf[st.N], relOf[st.N] = sub, ref
+		case "unsub":
+			subsOf[st.N].Release()
+			relOf[st.N].Release()
+			delete(subsOf, st.N)
+		case "pub":
+			npub++
+			data = fmt.Sprintf("line-%d-%s-%d", bi, st.N, npub)
+			if err := subsOf[st.N].Publish([]byte(data)); err != nil {
+				vio.Fatal("publish on %s: %v", st.N, err)
+			}
+			expected[data] = map[string]bool{}
+			for _, e := range st.Exp {
+				expected[data][e] = true
+			}
+		}
+		exp := st.Exp
+		if exp == nil {
+			exp = []string{}
+		}
+		emit(map[string]any{"e": "ev", "a": st.A, "n": st.N, "exp": exp, "data": data})
+		time.Sleep(250 * time.Millisecond)
+		for dl := time.Now().Add(15 * time.Second); !ok() && time.Now().Before(dl); {
+			time.Sleep(20 * time.Millisecond)
+		}
+		time.Sleep(200 * time.Millisecond)
+		mu.Lock()
+		g := map[string]any{}
+		for n, v := range got {
+			g[n] = append([]gotMsg{}, v...)
+		}
+		mu.Unlock()
+		emit(map[string]any{"e": "q", "got": g, "opens": hook.max()})
 	}
 }
 
@@ -395,8 +567,42 @@ func main() {
 	flag.Parse()
 	lg := logrus.New()
 	lg.SetOutput(io.Discard)
+	if os.Getenv("VERIF_LOG") != "" {
+		lg.SetOutput(os.Stderr)
+		lg.SetLevel(logrus.DebugLevel)
+	}
 	le := logrus.NewEntry(lg)
 	out := vio.NewOut(*outp)
+	if *mode == "pubsubline" {
+		var ph [][]lstep
+		for _, raw := range vio.ReadCases(*cases) {
+			var h []lstep
+			if err := json.Unmarshal(raw, &h); err != nil {
+				vio.Fatal("%v", err)
+			}
+			ph = append(ph, h)
+		}
+		results := make([][]map[string]any, len(ph))
+		sem := make(chan struct{}, 10)
+		var wg sync.WaitGroup
+		for i, h := range ph {
+			wg.Add(1)
+			sem <- struct{}{}
+			go func(i int, h []lstep) {
+				defer wg.Done()
+				defer func() { <-sem }()
+				runPubSubLine(i, h, le, func(m map[string]any) { results[i] = append(results[i], m) })
+			}(i, h)
+		}
+		wg.Wait()
+		for _, evs := range results {
+			for _, e := range evs {
+				out.Emit(e)
+			}
+		}
+		out.Close()
+		return
+	}
 	if *mode == "pubsub" {
 		var ph [][]pstep
 		for _, raw := range vio.ReadCases(*cases) {
